@@ -477,7 +477,14 @@ func c09wBuild(elems []string, enable func(context.Context)) (r manager.Runnable
 // to the real object and counts the calls of the enable function during one Start of it.
 func c09wMeasure(elems []string) (leaderOnly bool, invokes int, measured bool) {
 	n := 0
-	r, typed, ok := c09wBuild(elems, func(context.Context) { n++ })
+	// the context Start is given below; an invocation counts when the enable function receives THAT context (a context with a
+	// deadline or a cancellation of its own could end the flush of the saved statuses before they are written)
+	ctx, cancel := context.WithCancel(context.Background())
+	r, typed, ok := c09wBuild(elems, func(c context.Context) {
+		if c == ctx {
+			n++
+		}
+	})
 	if !ok {
 		return true, 0, false
 	}
@@ -494,10 +501,10 @@ func c09wMeasure(elems []string) (leaderOnly bool, invokes int, measured bool) {
 	lr, isLR := r.(manager.LeaderElectionRunnable)
 	leaderOnly = !isLR || lr.NeedLeaderElection()
 	if elems[len(elems)-1] != c09wEventLoop { // the nil *EventLoop stands for its type only
-		ctx, cancel := context.WithCancel(context.Background())
 		cancel() // a CronJob must not wait for its ready channel
 		_ = r.Start(ctx)
 	}
+	cancel()
 	return leaderOnly, n, typed
 }
 
